@@ -1525,6 +1525,8 @@ class quantized_bits(base_quantizer.BaseQuantizer):  # pylint: disable=invalid-n
         "qnoise_factor":
             self.qnoise_factor.numpy() if isinstance(
                 self.qnoise_factor, tf.Variable) else self.qnoise_factor,
+        "use_ste":
+            self.use_ste,
         "elements_per_scale":
             self.elements_per_scale,
         "min_po2_exponent":
@@ -2496,7 +2498,9 @@ class quantized_relu(base_quantizer.BaseQuantizer):  # pylint: disable=invalid-n
             self.is_quantized_clip,
         "qnoise_factor":
             self.qnoise_factor.numpy() if isinstance(
-                self.qnoise_factor, tf.Variable) else self.qnoise_factor
+                self.qnoise_factor, tf.Variable) else self.qnoise_factor,
+        "use_ste":
+            self.use_ste
     }
     return config
 
@@ -2965,6 +2969,8 @@ class quantized_po2(base_quantizer.BaseQuantizer):  # pylint: disable=invalid-na
         "qnoise_factor":
             self.qnoise_factor.numpy() if isinstance(
                 self.qnoise_factor, tf.Variable) else self.qnoise_factor,
+        "use_ste":
+            self.use_ste,
         "log2_rounding":
             self.log2_rounding
     }
@@ -3139,6 +3145,8 @@ class quantized_relu_po2(base_quantizer.BaseQuantizer):  # pylint: disable=inval
         "qnoise_factor":
             self.qnoise_factor.numpy() if isinstance(
                 self.qnoise_factor, tf.Variable) else self.qnoise_factor,
+        "use_ste":
+            self.use_ste,
         "log2_rounding":
             self.log2_rounding
     }
@@ -3295,7 +3303,7 @@ class quantized_hswish(quantized_bits):  # pylint: disable=invalid-name
 
     base_config = super(quantized_hswish, self).get_config()
     # quantized_hswish.__init__ does not take these quantized_bits options.
-    for key in ("keep_negative", "elements_per_scale", "min_po2_exponent",
+    for key in ("keep_negative", "use_ste", "elements_per_scale", "min_po2_exponent",
                 "max_po2_exponent", "post_training_scale"):
       base_config.pop(key, None)
 
